@@ -34,17 +34,21 @@ type tcStub struct {
 	begins chan message.RpcMessage
 	resps  []p2resp
 	hb     int
+	opens  int
+	closes int
+	regIDs []int32 // ids of the RegisterTM requests seen
 	other  []string
 }
 
 func (t *tcStub) OnOpen(s getty.Session) error {
 	t.mu.Lock()
 	t.sess = s
+	t.opens++
 	t.mu.Unlock()
 	return nil
 }
-func (t *tcStub) OnError(getty.Session, error) {}
-func (t *tcStub) OnClose(getty.Session)        {}
+func (t *tcStub) OnError(getty.Session, error) { t.mu.Lock(); t.closes++; t.mu.Unlock() }
+func (t *tcStub) OnClose(getty.Session)        { t.mu.Lock(); t.closes++; t.mu.Unlock() }
 func (t *tcStub) OnCron(getty.Session)         {}
 func (t *tcStub) OnMessage(s getty.Session, pkg interface{}) {
 	m, ok := pkg.(message.RpcMessage)
@@ -53,6 +57,9 @@ func (t *tcStub) OnMessage(s getty.Session, pkg interface{}) {
 	}
 	switch b := m.Body.(type) {
 	case message.RegisterTMRequest:
+		t.mu.Lock()
+		t.regIDs = append(t.regIDs, m.ID)
+		t.mu.Unlock()
 		_, _, _ = s.WritePkg(message.RpcMessage{ID: m.ID, Type: message.GettyRequestTypeResponse, Codec: 1,
 			Body: message.RegisterTMResponse{AbstractIdentifyResponse: message.AbstractIdentifyResponse{Identified: true, Version: "1.5.2"}}}, time.Second)
 		select {
@@ -81,6 +88,26 @@ func (t *tcStub) OnMessage(s getty.Session, pkg interface{}) {
 	}
 }
 
+// pendingBesidesRegistration: entries of the pending-future table that do not belong to a
+// RegisterTM request. The client connects while it is still initialising (InitGetty dials before
+// the processors are registered), so the answer to its first RegisterTM can be dropped as "no
+// processor"; that one-way waiter then keeps its entry until its own 20 s timeout — no leak.
+func (t *tcStub) pendingBesidesRegistration() []int32 {
+	t.mu.Lock()
+	reg := map[int32]bool{}
+	for _, id := range t.regIDs {
+		reg[id] = true
+	}
+	t.mu.Unlock()
+	var out []int32
+	for _, id := range sgetty.VerifPendingIDs() {
+		if !reg[id] {
+			out = append(out, id)
+		}
+	}
+	return out
+}
+
 type tcpResult struct {
 	Skipped    string   `json:"skipped,omitempty"` // infrastructure reason (no verdict)
 	Oracle     []string `json:"oracle"`
@@ -96,7 +123,20 @@ type tcpResult struct {
 func RunTCP(args map[string]string) {
 	t0 := time.Now()
 	res := &tcpResult{}
+	var tcRef *tcStub
 	defer func() {
+		if tcRef != nil {
+			tcRef.mu.Lock()
+			opens, closes := tcRef.opens, tcRef.closes
+			tcRef.mu.Unlock()
+			if (opens > 1 || closes > 0) && res.Skipped == "" {
+				// the connection was lost / re-established while the scenario ran (read timeouts on a loaded
+				// machine): requests in flight then wait for their 20 s timeout and their entries are no leak;
+				// the smoke scenario gives no verdict in that case
+				res.Skipped = fmt.Sprintf("the loopback connection was re-established during the scenario (%d opens, %d closes)", opens, closes)
+				res.Oracle = nil
+			}
+		}
 		res.Secs = time.Since(t0).Seconds()
 		hutil.WriteJSON(args["out"], map[string]interface{}{"tcp": res})
 	}()
@@ -121,6 +161,7 @@ func RunTCP(args map[string]string) {
 		return
 	}
 	tc := &tcStub{opened: make(chan struct{}, 4), begins: make(chan message.RpcMessage, 1024)}
+	tcRef = tc
 	srv := getty.NewTCPServer(getty.WithLocalAddress(addr), getty.WithServerTaskPool(gxsync.NewTaskPoolSimple(0)))
 	go srv.RunEventLoop(func(s getty.Session) error {
 		s.SetName("tc-stub")
@@ -227,14 +268,14 @@ wait:
 	if k := parkedDeliveries(); k != 0 {
 		oracle("tcp: %d goroutine(s) parked in response delivery", k)
 	}
-	if p := pendingFutures(); p != 0 {
-		oracle("tcp: %d entries left in the pending-future table: %v", p, sgetty.VerifPendingIDs())
+	if p := tc.pendingBesidesRegistration(); len(p) != 0 {
+		oracle("tcp: %d entries left in the pending-future table: %v", len(p), p)
 	}
 
 	// let at least one real heartbeat (cron period 1 s) and its answer pass
 	time.Sleep(time.Duration(hutil.ArgInt(args, "hbwait", 1300)) * time.Millisecond)
-	if p := pendingFutures(); p != 0 {
-		oracle("tcp: %d entries in the pending-future table after a heartbeat round: %v", p, sgetty.VerifPendingIDs())
+	if p := tc.pendingBesidesRegistration(); len(p) != 0 {
+		oracle("tcp: %d entries in the pending-future table after a heartbeat round: %v", len(p), p)
 	}
 
 	// ---- C15 over TCP: phase-two requests from the coordinator stand-in
@@ -301,7 +342,7 @@ settle:
 	for _, o := range cs.Oracle {
 		oracle("tcp: %s", o)
 	}
-	if p := pendingFutures(); p != 0 {
-		oracle("tcp: %d entries left in the pending-future table after the phase-two answers: %v", p, sgetty.VerifPendingIDs())
+	if p := tc.pendingBesidesRegistration(); len(p) != 0 {
+		oracle("tcp: %d entries left in the pending-future table after the phase-two answers: %v", len(p), p)
 	}
 }
